@@ -12,6 +12,10 @@ mod fam_locks;
 mod fam_kern;
 mod fam_mem;
 mod fam_vq;
+mod rec_fe;
+mod fam_proxy;
+mod fam_besrv;
+mod fam_gpu;
 mod peer;
 mod daemon;
 mod fam_route;
@@ -73,6 +77,9 @@ fn fam_dispatch(fam: &str, line: &str) -> Option<String> {
         "kern" => Some(fam_kern::run(line)),
         "mem" => Some(fam_mem::run(line)),
         "vq" => Some(fam_vq::run(line)),
+        "proxy" => Some(fam_proxy::run(line)),
+        "besrv" => Some(fam_besrv::run(line)),
+        "gpu" => Some(fam_gpu::run(line)),
         _ => None,
     }
 }
